@@ -57,7 +57,7 @@ def run(tier, seed):
     base = runner.workdir('c16')
     scen = []
     for name, case, pre_files in sysutil.scenario_cases(seed, tier):
-        if 'onto' in name:
+        if 'onto' in name or 'unusable' in name:
             continue
         for kind in ('name', 'fd'):
             c = copy.deepcopy(case)
